@@ -31,6 +31,15 @@ class Harness:
         self.nounwind = attrs.get("nounwind", "0") == "1"   # liar loops: no unwinding assertions (bounded)
 
 
+    def qualified(self):
+        """fully qualified harness name as Kani prints it: module path of the parent + overlay module"""
+        mod = self.parent[len("src/"):-len(".rs")].replace("/", "::")
+        if mod == "lib":
+            mod = ""
+        stem = os.path.splitext(os.path.basename(self.file))[0]
+        return (mod + "::" if mod else "") + "verif_" + stem + "::" + self.name
+
+
 _OB_RE = re.compile(r"^\s*//\s*@ob\s+(.*)$")
 _KV_RE = re.compile(r"(\w+)=((?:\"[^\"]*\")|\S+)")
 
@@ -200,9 +209,9 @@ def run_kani(scratch, harnesses, jobs=14, features="", log_path=None, regular=Fa
         cmd += ["--no-default-features"]
     elif features:
         cmd += ["--features", features]
-    for n in names:
-        cmd += ["--harness", n]
-    cmd += ["--exact"] if False else []
+    for h in harnesses:
+        cmd += ["--harness", h.qualified()]
+    cmd += ["--exact"]     # without it Kani matches by substring (kx_get_u16 would also run kx_get_u16_le, ...)
     if not regular:
         cmd += ["-j", str(max(1, min(jobs, len(names)))), "--output-format", "terse"]
     cmd += ["--harness-timeout", "%ds" % timeout_each]
